@@ -608,6 +608,43 @@ func (c *SpecCtx) call(x *ast.CallExpr) SVal {
 				fb = fv.wm0
 			}
 			return SVal{sx(">=", c.refOf(v), fb), tBool}
+		case "lastresult", "lastarg", "atlast":
+			// ghost record of the most recent call of a function on this path (see lastCall)
+			fid, ok := x.Args[0].(*ast.Ident)
+			if !ok {
+				specFail("%s needs a function name", id.Name)
+			}
+			rec := c.st.last[fid.Name]
+			switch id.Name {
+			case "lastresult":
+				if rec == nil || len(rec.res) != 1 {
+					return SVal{"false", tBool} // no such call on this path
+				}
+				if _, isBool := rec.res[0].ty.Underlying().(*types.Basic); !isBool || rec.res[0].ty.Underlying().(*types.Basic).Kind() != types.Bool {
+					specFail("lastresult(%s): not a bool function", fid.Name)
+				}
+				return SVal{and(rec.valid, rec.res[0].t), tBool}
+			case "lastarg":
+				lit, ok := x.Args[1].(*ast.BasicLit)
+				if !ok {
+					specFail("lastarg(F, i) needs a literal index")
+				}
+				i, _ := strconv.Atoi(lit.Value)
+				if rec == nil || i >= len(rec.args) {
+					fv.noRecord = fid.Name
+					// type of the argument from the callee's signature is not at hand: an untyped nil keeps the clause well-formed
+					return SVal{"nil", nil}
+				}
+				return rec.args[i]
+			default:
+				if rec == nil {
+					fv.noRecord = fid.Name
+					return c.tr(x.Args[1])
+				}
+				n := *c
+				n.st = rec.snap
+				return n.tr(x.Args[1])
+			}
 		case "atloop": // value of the expression when the enclosing loop was entered
 			if c.loopPre == nil {
 				specFail("atloop() only inside loop invariants")
